@@ -1,4 +1,744 @@
+//! C08 - message framing is independent of stream segmentation; truncation is an error.
+//!
+//! recv : a well-formed message is delivered to a receiver (backend request server, frontend
+//!        request server, reply paths of Frontend / Backend proxy / GpuBackend) once in a single
+//!        sendmsg (reference) and then in every 2-split, sampled 3-splits, byte by byte and in
+//!        random segmentations. The next segment is written only after the receiver has consumed
+//!        the previous one (SIOCINQ == 0), so segmentation is deterministic, not timing based.
+//!        Result, handler log and bytes written must equal the reference.
+//! cut  : every cut offset of the message followed by end-of-stream: the receiver must return
+//!        an error (clean `Disconnected` only at offset 0), dispatch nothing, and not block.
+//! send : senders on a non-blocking socket with a minimal send buffer: the peer reads slowly and
+//!        certifies partial writes; bytes must arrive exactly once, in order, descriptors on the
+//!        first byte only.
+
+use crate::c01::{self, make_reply, preload, BeOp};
+use crate::c04::{self, ROp, Sym};
+use crate::ops::{self, FeOp, Lent, ReplyKind};
+use crate::rec::{Call, FeOut, RecFrontend, Script};
+use crate::util;
 use crate::Cfg;
-pub fn run(_cfg: &Cfg) {
-    common::report::inconclusive("not implemented");
+use common::spec::{self, gpu, F_NEED_REPLY, F_REPLY, F_VERSION1};
+use common::sys;
+use common::{jo, report, Rng, J};
+use std::os::unix::io::{AsRawFd, RawFd};
+use std::sync::atomic::{AtomicBool, AtomicI32, Ordering};
+use std::sync::{Arc, Mutex};
+use std::time::{Duration, Instant};
+
+use vhost::vhost_user::gpu_message::*;
+use vhost::vhost_user::message::*;
+use vhost::vhost_user::{Backend, Frontend, FrontendReqHandler, GpuBackend};
+
+#[derive(Clone, Debug)]
+pub struct Plan {
+    /// cut points (strictly increasing offsets inside the message)
+    pub cuts: Vec<usize>,
+    /// close the stream after the last segment instead of sending the rest
+    pub truncate_at: Option<usize>,
+}
+
+impl Plan {
+    fn whole() -> Plan {
+        Plan { cuts: vec![], truncate_at: None }
+    }
+    fn id(&self) -> String {
+        match self.truncate_at {
+            Some(t) => format!("cut{t}"),
+            None => format!("split{:?}", self.cuts),
+        }
+    }
+}
+
+fn log_text(log: &[Call]) -> String {
+    log.iter()
+        .map(|c| format!("{}({:x?},{:x?},{:?})", c.method, c.args, c.bytes.len(), c.fds.iter().map(|(_, id)| id.clone()).collect::<Vec<_>>()))
+        .collect::<Vec<_>>()
+        .join(";")
+}
+
+pub struct RecvObs {
+    pub text: String,
+    pub returned: bool,
+    pub blocked_after_close: bool,
+    pub handler_calls: usize,
+    pub err_kind: String,
+}
+
+/// Feed `bytes` (descriptors with the first segment) to a receiver running in its own thread
+/// according to `plan`. `recv_fd` is the receiver's socket (for SIOCINQ), `peer_fd` ours.
+/// `pre_read`: first consume one request message from the peer side (API-call receivers).
+fn feed<R: Send + 'static>(
+    recv_fd: RawFd,
+    peer_fd: RawFd,
+    bytes: &[u8],
+    fds: &[RawFd],
+    plan: &Plan,
+    pre_read: bool,
+    receiver: impl FnOnce() -> R + Send + 'static,
+) -> (Option<R>, bool) {
+    let tid = Arc::new(AtomicI32::new(0));
+    let done = Arc::new(AtomicBool::new(false));
+    let (t2, d2) = (tid.clone(), done.clone());
+    let h = std::thread::Builder::new()
+        .name("hv-receiver".into())
+        .spawn(move || {
+            t2.store(sys::gettid(), Ordering::SeqCst);
+            let r = util::catch(receiver);
+            d2.store(true, Ordering::SeqCst);
+            r
+        })
+        .expect("spawn receiver");
+    if pre_read {
+        let mut m = spec::read_msg(peer_fd, 5000, 1 << 20);
+        m.close_fds();
+    }
+    let end = plan.truncate_at.unwrap_or(bytes.len());
+    let mut offs: Vec<usize> = plan.cuts.iter().copied().filter(|c| *c > 0 && *c < end).collect();
+    offs.push(end);
+    let mut start = 0usize;
+    for (i, o) in offs.iter().enumerate() {
+        if *o > start || (i == 0 && *o == 0) {
+            // the previous segment must have been consumed before the next one is written
+            sys::wait_until(5000, || sys::inq(recv_fd) == 0 || done.load(Ordering::SeqCst));
+            if done.load(Ordering::SeqCst) {
+                break;
+            }
+            if *o > start {
+                let _ = sys::send_all(peer_fd, &bytes[start..*o], if start == 0 { fds } else { &[] });
+            }
+        }
+        start = *o;
+    }
+    let mut blocked = false;
+    if plan.truncate_at.is_some() {
+        sys::wait_until(5000, || sys::inq(recv_fd) == 0 || done.load(Ordering::SeqCst));
+        unsafe { libc::shutdown(peer_fd, libc::SHUT_WR) };
+        // after end-of-stream the receiver must return; parked in recvmsg now = blocked forever
+        let returned = sys::wait_until(10_000, || done.load(Ordering::SeqCst));
+        if !returned {
+            let t = tid.load(Ordering::SeqCst);
+            blocked = t > 0 && sys::parked_in(t, &[sys::SYS_RECVMSG]);
+            unsafe { libc::shutdown(peer_fd, libc::SHUT_RDWR) };
+            unsafe { libc::shutdown(recv_fd, libc::SHUT_RDWR) };
+        }
+    } else if !sys::wait_until(10_000, || done.load(Ordering::SeqCst)) {
+        // a complete message was delivered and the receiver still waits: unblock and report
+        let t = tid.load(Ordering::SeqCst);
+        blocked = t > 0 && sys::parked_in(t, &[sys::SYS_RECVMSG]);
+        unsafe { libc::shutdown(recv_fd, libc::SHUT_RDWR) };
+    }
+    match h.join() {
+        Ok(Ok(r)) => (Some(r), blocked),
+        _ => (None, blocked),
+    }
+}
+
+// ---- receivers ---------------------------------------------------------------------------------
+
+/// Backend request server receiving `sym`.
+fn recv_srv(sym: &Sym, plan: &Plan) -> RecvObs {
+    let (peer, mut srv, be) = util::raw_server(Script { protocol_features: ops::ALL_PF, features: spec::VIRTIO_F_PROTOCOL_FEATURES | 3, ..Script::default() });
+    util::raw_negotiate(&peer, &mut srv, spec::VIRTIO_F_PROTOCOL_FEATURES | 1, ops::ALL_PF);
+    be.lock().unwrap().log.clear();
+    let (body, nfds) = sym.op.wire();
+    let (files, socks) = sym.op.files(nfds);
+    let mut fds: Vec<RawFd> = files.iter().map(|f| f.as_raw_fd()).collect();
+    fds.extend(socks.iter().step_by(2).map(|s| s.as_raw_fd()));
+    let flags = F_VERSION1 | if sym.nr { F_NEED_REPLY } else { 0 };
+    let bytes = spec::msg(sym.op.code(), flags, &body);
+    let srv_fd = srv.as_raw_fd();
+    let (res, blocked) = feed(srv_fd, peer.as_raw_fd(), &bytes, &fds, plan, false, move || {
+        let r = srv.handle_request();
+        (format!("{r:?}"), srv)
+    });
+    let log = be.lock().unwrap().log.clone();
+    let (mut msgs, rest) = spec::read_all_msgs(peer.as_raw_fd(), 1 << 20);
+    let replies: Vec<String> = msgs.iter().map(|m| format!("{:?}+{}B+{}fd", m.hdr(), m.body.len(), m.fds_first.len())).collect();
+    for m in msgs.iter_mut() {
+        m.close_fds();
+    }
+    let (r, returned) = match &res {
+        Some((r, _)) => (r.clone(), true),
+        None => ("<panic-or-blocked>".to_string(), false),
+    };
+    // descriptor identities are per-run objects: compare their count/kind only
+    let logt = log.iter().map(|c| format!("{}({:x?},{}B,{}fd)", c.method, c.args, c.bytes.len(), c.fds.len())).collect::<Vec<_>>().join(";");
+    RecvObs { text: format!("{r}|{logt}|{replies:?}|{}", rest.len()), returned, blocked_after_close: blocked, handler_calls: log.len(), err_kind: r }
+}
+
+/// Frontend request server receiving a backend-initiated request.
+fn recv_fesrv(op: &BeOp, need_reply: bool, plan: &Plan) -> RecvObs {
+    let h = Arc::new(Mutex::new(RecFrontend::default()));
+    h.lock().unwrap().out = Some(FeOut::Val(0));
+    let mut srv = FrontendReqHandler::new(h.clone()).expect("FrontendReqHandler");
+    srv.set_reply_ack_flag(true);
+    let peer_fd = unsafe { libc::dup(srv.get_tx_raw_fd()) };
+    let (body, nfds) = op.wire();
+    let file = sys::memfd("c08", 4096);
+    let fds: Vec<RawFd> = if nfds == 1 { vec![file.as_raw_fd()] } else { vec![] };
+    let bytes = spec::msg(op.code(), F_VERSION1 | if need_reply { F_NEED_REPLY } else { 0 }, &body);
+    let srv_fd = srv.as_raw_fd();
+    let (res, blocked) = feed(srv_fd, peer_fd, &bytes, &fds, plan, false, move || {
+        let r = srv.handle_request();
+        (format!("{r:?}"), srv)
+    });
+    let log = h.lock().unwrap().log.clone();
+    let (mut msgs, rest) = spec::read_all_msgs(peer_fd, 1 << 16);
+    let replies: Vec<String> = msgs.iter().map(|m| format!("{:?}+{:x?}", m.hdr(), m.body)).collect();
+    for m in msgs.iter_mut() {
+        m.close_fds();
+    }
+    sys::close(peer_fd);
+    let (r, returned) = match &res {
+        Some((r, _)) => (r.clone(), true),
+        None => ("<panic-or-blocked>".to_string(), false),
+    };
+    let logt = log.iter().map(|c| format!("{}({:x?},{:x?},{}fd)", c.method, c.args, c.bytes, c.fds.len())).collect::<Vec<_>>().join(";");
+    RecvObs { text: format!("{r}|{logt}|{replies:?}|{}", rest.len()), returned, blocked_after_close: blocked, handler_calls: log.len(), err_kind: r }
+}
+
+/// A reply-consuming API call: the reply bytes are what gets segmented.
+#[derive(Clone, Debug)]
+enum CallKind {
+    Fe(FeOp),
+    Be(BeOp),
+    Gpu(u32),
+}
+
+fn recv_call(ck: &CallKind, reply_seed: u64, plan: &Plan) -> RecvObs {
+    let mut rng = Rng::new(reply_seed);
+    let (a, peer) = sys::pair();
+    let recv_fd = a.as_raw_fd();
+    match ck {
+        CallKind::Fe(op) => {
+            // negotiated frontend over a second, throw-away peer for the setup traffic
+            let c = c01::FeCfg { need_reply: true, reply_ack: true, log_shmfd: true };
+            drop(a);
+            drop(peer);
+            let (mut f, peer) = c01::setup_frontend(c, 256);
+            let recv_fd = f.as_raw_fd();
+            let kind = op.reply_kind(true);
+            let rep = make_reply(op, kind, &mut rng);
+            let payload = if kind == ReplyKind::Ack { spec::p_u64(0) } else { rep.payload.clone() };
+            let bytes = spec::msg(op.code(), F_VERSION1 | F_REPLY, &payload);
+            let fds: Vec<RawFd> = rep.file.iter().map(|f| f.as_raw_fd()).collect();
+            let op2 = op.clone();
+            let (res, blocked) = feed(recv_fd, peer.as_raw_fd(), &bytes, &fds, plan, true, move || {
+                let mut lent = Lent::default();
+                let o = op2.exec(&mut f, &mut lent);
+                (format!("ok={} err={} vals={:x?} bytes={:x?} file={}", o.ok, o.err, o.vals, o.bytes, o.file.is_some()), o.ok)
+            });
+            let (t, ok) = res.unwrap_or(("<panic-or-blocked>".into(), false));
+            RecvObs { returned: t != "<panic-or-blocked>", text: t.clone(), blocked_after_close: blocked, handler_calls: ok as usize, err_kind: t }
+        }
+        CallKind::Be(op) => {
+            let b = Backend::from_stream(a);
+            b.set_reply_ack_flag(true);
+            b.set_shared_object_flag(true);
+            b.set_shmem_flag(true);
+            let bytes = spec::msg(op.code(), F_VERSION1 | F_REPLY, &spec::p_u64(0));
+            let op2 = op.clone();
+            let (res, blocked) = feed(recv_fd, peer.as_raw_fd(), &bytes, &[], plan, true, move || {
+                let file = sys::memfd("c08", 4096);
+                let r = op2.exec(&b, &file);
+                (format!("{r:?}"), r.is_ok())
+            });
+            let (t, ok) = res.unwrap_or(("<panic-or-blocked>".into(), false));
+            RecvObs { returned: t != "<panic-or-blocked>", text: t.clone(), blocked_after_close: blocked, handler_calls: ok as usize, err_kind: t }
+        }
+        CallKind::Gpu(code) => {
+            let g = GpuBackend::from_stream(a);
+            let payload = match *code {
+                gpu::GET_PROTOCOL_FEATURES => spec::p_u64(rng.next()),
+                gpu::GET_DISPLAY_INFO => rng.bytes(gpu::DISPLAY_INFO_SIZE),
+                gpu::GET_EDID => rng.bytes(gpu::EDID_RESP_SIZE),
+                _ => vec![],
+            };
+            let bytes = spec::msg(*code, gpu::F_REPLY, &payload);
+            let code = *code;
+            let (res, blocked) = feed(recv_fd, peer.as_raw_fd(), &bytes, &[], plan, true, move || {
+                use vm_memory::ByteValued;
+                let r: std::io::Result<Vec<u8>> = match code {
+                    gpu::GET_PROTOCOL_FEATURES => g.get_protocol_features().map(|v| v.value.to_ne_bytes().to_vec()),
+                    gpu::GET_DISPLAY_INFO => g.get_display_info().map(|v| v.as_slice().to_vec()),
+                    gpu::GET_EDID => g.get_edid(&VhostUserGpuEdidRequest { scanout_id: 1 }).map(|v| v.as_slice().to_vec()),
+                    _ => g.update_dmabuf_scanout(&VhostUserGpuUpdate::default()).map(|_| vec![]),
+                };
+                (format!("{:?}", r.as_ref().map(|b| report::hash_bytes(b)).map_err(|e| e.to_string())), r.is_ok())
+            });
+            let (t, ok) = res.unwrap_or(("<panic-or-blocked>".into(), false));
+            RecvObs { returned: t != "<panic-or-blocked>", text: t.clone(), blocked_after_close: blocked, handler_calls: ok as usize, err_kind: t }
+        }
+    }
+}
+
+// ---- plans -----------------------------------------------------------------------------------------
+fn plans_for(len: usize, rng: &mut Rng, thorough: bool) -> Vec<Plan> {
+    let mut v = Vec::new();
+    // every 2-split (sampled for long messages in quick mode)
+    let step2 = if len > 600 && !thorough { 29 } else if len > 1500 { 7 } else { 1 };
+    let mut c = 1;
+    while c < len {
+        v.push(Plan { cuts: vec![c], truncate_at: None });
+        c += step2;
+    }
+    for edge in [1usize, 11, 12, 13, 19, 20, 21, len.saturating_sub(1)] {
+        if edge > 0 && edge < len {
+            v.push(Plan { cuts: vec![edge], truncate_at: None });
+        }
+    }
+    // 3-splits: all pairs for short messages, sampled otherwise
+    if len <= 48 {
+        for a in 1..len {
+            for b in a + 1..len {
+                v.push(Plan { cuts: vec![a, b], truncate_at: None });
+            }
+        }
+    } else {
+        for _ in 0..if thorough { 120 } else { 16 } {
+            let a = rng.range(1, len as u64 - 2) as usize;
+            let b = rng.range(a as u64 + 1, len as u64 - 1) as usize;
+            v.push(Plan { cuts: vec![a, b], truncate_at: None });
+        }
+        for (a, b) in [(4usize, 12usize), (12, 13), (11, 12), (12, len - 1), (1, 2)] {
+            if a < b && b < len {
+                v.push(Plan { cuts: vec![a, b], truncate_at: None });
+            }
+        }
+    }
+    // byte by byte
+    if len <= 300 || thorough {
+        v.push(Plan { cuts: (1..len).collect(), truncate_at: None });
+    }
+    // header / body in separate writes, random segmentations
+    for _ in 0..if thorough { 12 } else { 3 } {
+        let mut cuts: Vec<usize> = (1..len).filter(|_| rng.chance(1, 6)).collect();
+        cuts.dedup();
+        v.push(Plan { cuts, truncate_at: None });
+    }
+    v
+}
+
+fn cut_plans(len: usize, rng: &mut Rng, thorough: bool) -> Vec<Plan> {
+    let step = if len > 600 && !thorough { 41 } else if len > 1500 { 9 } else { 1 };
+    let mut v: Vec<Plan> = (0..len).step_by(step).map(|t| Plan { cuts: vec![], truncate_at: Some(t) }).collect();
+    for t in [0usize, 1, 11, 12, 13, len - 1] {
+        if t < len {
+            v.push(Plan { cuts: vec![], truncate_at: Some(t) });
+        }
+    }
+    // truncation after a split
+    for _ in 0..4 {
+        let t = rng.range(2, len as u64 - 1) as usize;
+        let c = rng.range(1, t as u64 - 1) as usize;
+        v.push(Plan { cuts: vec![c], truncate_at: Some(t) });
+    }
+    v
+}
+
+fn judge_recv(cfg: &Cfg, who: &str, what: &str, len: usize, run: &dyn Fn(&Plan) -> RecvObs, rng: &mut Rng, case: &str) {
+    let reference = run(&Plan::whole());
+    if !reference.returned {
+        report::inconclusive(&format!("{who} {what}: reference run did not return"));
+        return;
+    }
+    for p in plans_for(len, rng, cfg.thorough) {
+        let o = run(&p);
+        report::eval(1);
+        report::count(&format!("{who}.segmented"), 1);
+        report::distinct_str(&format!("{who}:{what}:{}", p.id()));
+        if o.text != reference.text || o.blocked_after_close {
+            report::violation(
+                &format!("C08:{who}:{what}:segmentation-changes-result"),
+                jo! {"receiver" => who, "message" => what, "length" => len, "cuts" => p.cuts.iter().map(|c| *c as u64).collect::<Vec<u64>>(),
+                "single_write" => reference.text.as_str(), "segmented" => o.text.as_str(), "blocked" => o.blocked_after_close},
+                cfg.replay(case),
+            );
+            break; // one witness per (receiver, message)
+        }
+    }
+    report::sample(&format!("{who}:{what}"), jo! {"receiver" => who, "message" => what, "length" => len, "reference_result" => reference.text.chars().take(200).collect::<String>()});
+    for p in cut_plans(len, rng, cfg.thorough) {
+        let o = run(&p);
+        let t = p.truncate_at.unwrap_or(0);
+        report::eval(1);
+        report::count(&format!("{who}.truncated"), 1);
+        report::distinct_str(&format!("{who}:{what}:{}:{:?}", p.id(), p.cuts));
+        let is_err = o.err_kind.contains("Err") || o.err_kind.contains("ok=false");
+        let clean = o.err_kind.contains("Disconnected");
+        let sig = if o.blocked_after_close || !o.returned {
+            Some("blocks-after-end-of-stream")
+        } else if !is_err {
+            Some("truncated-message-accepted")
+        } else if o.handler_calls != 0 {
+            Some("partial-request-dispatched")
+        } else if clean && t != 0 {
+            Some("clean-disconnect-inside-message")
+        } else {
+            None
+        };
+        if let Some(sig) = sig {
+            report::violation(
+                &format!("C08:{who}:{what}:{sig}"),
+                jo! {"receiver" => who, "message" => what, "length" => len, "cut_offset" => t, "cuts_before" => p.cuts.iter().map(|c| *c as u64).collect::<Vec<u64>>(), "observed" => o.text.as_str(), "blocked" => o.blocked_after_close},
+                cfg.replay(case),
+            );
+            break;
+        }
+    }
+}
+
+fn receive_side(cfg: &Cfg, rng: &mut Rng) {
+    let mut vrng = Rng::new(0xc08);
+    let mut idx = 0u64;
+    // backend request server: every dispatched request kind, with and without NEED_REPLY
+    for op in c04::full_ops(&mut vrng) {
+        if op.method().is_none() {
+            continue;
+        }
+        for nr in [false, true] {
+            idx += 1;
+            if !cfg.mine(idx) {
+                continue;
+            }
+            let sym = Sym { op: op.clone(), nr, fail: false, offer_pf: true };
+            let len = 12 + sym.op.wire().0.len();
+            let s2 = sym.clone();
+            judge_recv(cfg, "backend-server", &sym.short(), len, &move |p| recv_srv(&s2, p), rng, &format!("recv:{idx}"));
+        }
+    }
+    // frontend request server
+    for k in 0..5u64 {
+        for nr in [false, true] {
+            idx += 1;
+            if !cfg.mine(idx) {
+                continue;
+            }
+            let op = c01::rand_beop(&mut vrng, k);
+            let len = 12 + op.wire().0.len();
+            let o2 = op.clone();
+            judge_recv(cfg, "frontend-req-server", &format!("{}{}", op.name(), if nr { "+NR" } else { "" }), len, &move |p| recv_fesrv(&o2, nr, p), rng, &format!("recv:{idx}"));
+        }
+    }
+    // reply paths
+    let mut calls: Vec<(String, CallKind, usize)> = Vec::new();
+    for kind in 0..ops::N_OP_KINDS {
+        let op = loop {
+            let o = ops::rand_op(&mut vrng, 256, Some(kind));
+            if !o.locally_invalid(256) {
+                break o;
+            }
+        };
+        if matches!(op, FeOp::SetProtocolFeatures(_) | FeOp::SetFeatures(_)) {
+            continue;
+        }
+        let k = op.reply_kind(true);
+        if k == ReplyKind::Nothing {
+            continue;
+        }
+        let mut r2 = Rng::new(7);
+        let rep = make_reply(&op, k, &mut r2);
+        let len = 12 + if k == ReplyKind::Ack { 8 } else { rep.payload.len() };
+        calls.push((format!("reply-to-{}", op.name()), CallKind::Fe(op), len));
+    }
+    for k in 0..5u64 {
+        let op = c01::rand_beop(&mut vrng, k);
+        calls.push((format!("ack-to-{}", op.name()), CallKind::Be(op), 20));
+    }
+    for (code, len) in [(gpu::GET_PROTOCOL_FEATURES, 20), (gpu::GET_DISPLAY_INFO, 12 + gpu::DISPLAY_INFO_SIZE), (gpu::GET_EDID, 12 + gpu::EDID_RESP_SIZE), (gpu::DMABUF_UPDATE, 12)] {
+        calls.push((format!("gpu-reply-{code}"), CallKind::Gpu(code), len));
+    }
+    for (name, ck, len) in calls {
+        idx += 1;
+        if !cfg.mine(idx) {
+            continue;
+        }
+        let who = match ck {
+            CallKind::Fe(_) => "frontend",
+            CallKind::Be(_) => "backend-proxy",
+            CallKind::Gpu(_) => "gpu-proxy",
+        };
+        let ck2 = ck.clone();
+        judge_recv(cfg, who, &name, len, &move |p| recv_call(&ck2, 7, p), rng, &format!("recv:{idx}"));
+    }
+}
+
+// ---- send side: partial writes -----------------------------------------------------------------------
+
+/// Slow reader with partial-write certification. The first byte of every message (boundaries
+/// are known from the expected stream) is read alone so that the byte a descriptor arrives with
+/// is observed exactly; no read ever crosses a message boundary. Returns (bytes, (offset, count)
+/// of every descriptor delivery, certified partial/blocked writes).
+fn slow_read(peer_fd: RawFd, expect: &[u8], sender_done: &AtomicBool, rng: &mut Rng) -> (Vec<u8>, Vec<(usize, usize)>, u64) {
+    let total = expect.len();
+    // message boundaries of the expected stream (header size field)
+    let mut starts = Vec::new();
+    let mut o = 0usize;
+    while o + 12 <= total {
+        starts.push(o);
+        o += 12 + spec::rd_u32(expect, o + 8) as usize;
+    }
+    let mut got = Vec::new();
+    let mut fd_offs = Vec::new();
+    let mut certified = 0u64;
+    let deadline = Instant::now() + Duration::from_secs(30);
+    let mut buf = vec![0u8; 4096];
+    let mut next_start = 0usize; // index into starts
+    while got.len() < total && Instant::now() < deadline {
+        let q = sys::inq(peer_fd);
+        if q == 0 {
+            std::thread::yield_now();
+            continue;
+        }
+        // certificate: bytes are queued, fewer than what is still owed, and the sender has not
+        // returned: it is in the middle of a partial (or refused) write
+        if q < total - got.len() && !sender_done.load(Ordering::SeqCst) && rng.chance(1, 3) {
+            std::thread::sleep(Duration::from_micros(200));
+            if sys::inq(peer_fd) == q && !sender_done.load(Ordering::SeqCst) {
+                certified += 1;
+            }
+        }
+        while next_start < starts.len() && starts[next_start] < got.len() {
+            next_start += 1;
+        }
+        let boundary = starts.get(next_start).copied().unwrap_or(total);
+        let want = if boundary == got.len() {
+            1 // first byte of a message, alone
+        } else {
+            (rng.range(1, 900) as usize).min(boundary - got.len())
+        };
+        if let Ok(r) = sys::recv_fds(peer_fd, &mut buf[..want], libc::MSG_DONTWAIT) {
+            if r.n == 0 {
+                break;
+            }
+            if !r.fds.is_empty() {
+                fd_offs.push((got.len(), r.fds.len()));
+                for fd in r.fds {
+                    sys::close(fd);
+                }
+            }
+            got.extend_from_slice(&buf[..r.n]);
+        }
+    }
+    (got, fd_offs, certified)
+}
+
+fn send_side(cfg: &Cfg, rng: &mut Rng) {
+    let rounds = cfg.pick(6, 60);
+    let mut certified_total = 0u64;
+    for round in 0..rounds {
+        if !cfg.mine(round) {
+            continue;
+        }
+        for sender in 0..4u32 {
+            // --- build the endpoint with a minimal, non-blocking send buffer
+            let who;
+            let peer;
+            let send_fd;
+            let mut expect: Vec<u8> = Vec::new();
+            let mut expect_fd_offs: Vec<(usize, usize)> = Vec::new();
+            let done = Arc::new(AtomicBool::new(false));
+            let d2 = done.clone();
+            let handle: std::thread::JoinHandle<String>;
+            match sender {
+                0 => {
+                    who = "frontend";
+                    let c = c01::FeCfg { need_reply: false, reply_ack: false, log_shmfd: true };
+                    let (mut f, p) = c01::setup_frontend(c, 256);
+                    send_fd = f.as_raw_fd();
+                    sys::set_sndbuf(send_fd, 1);
+                    sys::set_nonblocking(send_fd, true);
+                    // filler (stays unread), then large messages; fds on some of them
+                    let mut opsv: Vec<FeOp> = vec![FeOp::SetVringNum(1, 8)];
+                    for _ in 0..3 {
+                        let len = rng.range(2300, ops::MAX_CONFIG_PAYLOAD as u64) as u32;
+                        let off = rng.range(0, (0x1000 - len) as u64) as u32;
+                        opsv.push(FeOp::SetConfig { offset: off, flags: 0, buf: rng.bytes(len as usize) });
+                        opsv.push(FeOp::SetMemTable((0..32).map(|_| ops::rand_region(rng)).collect()));
+                        opsv.push(FeOp::SetVringKick(3));
+                    }
+                    for op in &opsv {
+                        let (b, n) = op.wire(true);
+                        if n > 0 {
+                            expect_fd_offs.push((expect.len(), n));
+                        }
+                        expect.extend_from_slice(&spec::msg(op.code(), F_VERSION1, &b));
+                    }
+                    peer = p;
+                    handle = std::thread::spawn(move || {
+                        let mut res = String::new();
+                        for op in opsv {
+                            let mut lent = Lent::default();
+                            let o = op.exec(&mut f, &mut lent);
+                            res.push_str(if o.ok { "ok," } else { "ERR," });
+                        }
+                        d2.store(true, Ordering::SeqCst);
+                        res
+                    });
+                }
+                1 => {
+                    who = "backend-server";
+                    // replies of GET_CONFIG with large payloads
+                    let (p, mut srv, _be) = util::raw_server(util::full_script());
+                    util::raw_negotiate(&p, &mut srv, spec::VIRTIO_F_PROTOCOL_FEATURES, ops::ALL_PF);
+                    send_fd = srv.as_raw_fd();
+                    sys::set_sndbuf(send_fd, 1);
+                    sys::set_nonblocking(send_fd, true);
+                    let mut reqs = Vec::new();
+                    for i in 0..5 {
+                        let (off, size) = if i == 0 { (0u32, 8u32) } else {
+                            let size = rng.range(2300, ops::MAX_CONFIG_PAYLOAD as u64) as u32;
+                            (rng.range(0, (0x1000 - size) as u64) as u32, size)
+                        };
+                        reqs.extend_from_slice(&spec::msg(spec::fe::GET_CONFIG, F_VERSION1, &spec::p_config(off, size, 0, &vec![0u8; size as usize])));
+                        expect.extend_from_slice(&spec::msg(spec::fe::GET_CONFIG, F_VERSION1 | F_REPLY, &spec::p_config(off, size, 0, &crate::rec::config_pattern(off, size, 0x5a))));
+                        if i % 2 == 1 {
+                            // a descriptor-carrying reply in between
+                            reqs.extend_from_slice(&spec::msg(spec::fe::GET_SHARED_OBJECT, F_VERSION1, &[9u8; 16]));
+                            expect_fd_offs.push((expect.len(), 1));
+                            expect.extend_from_slice(&spec::msg(spec::fe::GET_SHARED_OBJECT, F_VERSION1 | F_REPLY, &[]));
+                        }
+                    }
+                    // requests are written up front (blocking side is ours)
+                    sys::send_all(p.as_raw_fd(), &reqs, &[]).expect("requests");
+                    let n = 5 + 2;
+                    peer = p;
+                    handle = std::thread::spawn(move || {
+                        // the server reads with the same non-blocking socket: retry on "would block"
+                        let mut res = String::new();
+                        let mut handled = 0;
+                        let deadline = Instant::now() + Duration::from_secs(20);
+                        while handled < n && Instant::now() < deadline {
+                            match srv.handle_request() {
+                                Ok(()) => {
+                                    handled += 1;
+                                    res.push_str("ok,");
+                                }
+                                Err(vhost::vhost_user::Error::SocketRetry(_)) => std::thread::yield_now(),
+                                Err(e) => {
+                                    res.push_str(&format!("ERR({e:?}),"));
+                                    break;
+                                }
+                            }
+                        }
+                        d2.store(true, Ordering::SeqCst);
+                        res
+                    });
+                }
+                2 => {
+                    who = "gpu-proxy";
+                    let (a, p) = sys::pair();
+                    send_fd = a.as_raw_fd();
+                    sys::set_sndbuf(send_fd, 1);
+                    sys::set_nonblocking(send_fd, true);
+                    let g = GpuBackend::from_stream(a);
+                    let mut work: Vec<(VhostUserGpuUpdate, Vec<u8>, bool)> = Vec::new();
+                    for i in 0..4 {
+                        let u = VhostUserGpuUpdate { scanout_id: i, x: 1, y: 2, width: 3, height: 4 };
+                        let dlen = rng.range(3000, 40000) as usize;
+                        let data = rng.bytes(dlen);
+                        let mut body = spec::W::new().u32(i).u32(1).u32(2).u32(3).u32(4).done();
+                        body.extend_from_slice(&data);
+                        expect.extend_from_slice(&spec::msg(gpu::UPDATE, 0, &body));
+                        let with_dmabuf = i % 2 == 0;
+                        if with_dmabuf {
+                            expect_fd_offs.push((expect.len(), 1));
+                            expect.extend_from_slice(&spec::msg(gpu::DMABUF_SCANOUT, 0, &[0u8; 40]));
+                        }
+                        work.push((u, data, with_dmabuf));
+                    }
+                    peer = p;
+                    handle = std::thread::spawn(move || {
+                        let mut res = String::new();
+                        let file = sys::memfd("dmabuf", 4096);
+                        for (u, data, dm) in work {
+                            res.push_str(if g.update_scanout(&u, &data).is_ok() { "ok," } else { "ERR," });
+                            if dm {
+                                res.push_str(if g.set_dmabuf_scanout(&VhostUserGpuDMABUFScanout::default(), Some(&file)).is_ok() { "ok," } else { "ERR," });
+                            }
+                        }
+                        d2.store(true, Ordering::SeqCst);
+                        res
+                    });
+                }
+                _ => {
+                    who = "backend-proxy";
+                    let (a, p) = sys::pair();
+                    send_fd = a.as_raw_fd();
+                    sys::set_sndbuf(send_fd, 1);
+                    sys::set_nonblocking(send_fd, true);
+                    let b = Backend::from_stream(a);
+                    b.set_shared_object_flag(true);
+                    b.set_shmem_flag(true);
+                    // many small messages: all-or-EAGAIN writes, descriptors re-offered on retry
+                    let mut opsv = Vec::new();
+                    for i in 0..250u64 {
+                        let op = c01::rand_beop(rng, i);
+                        let (body, n) = op.wire();
+                        if n > 0 {
+                            expect_fd_offs.push((expect.len(), n));
+                        }
+                        expect.extend_from_slice(&spec::msg(op.code(), F_VERSION1, &body));
+                        opsv.push(op);
+                    }
+                    peer = p;
+                    handle = std::thread::spawn(move || {
+                        let file = sys::memfd("proxy", 4096);
+                        let mut res = String::new();
+                        for op in opsv {
+                            res.push_str(if op.exec(&b, &file).is_ok() { "o" } else { "E" });
+                        }
+                        d2.store(true, Ordering::SeqCst);
+                        res
+                    });
+                }
+            }
+            let _ = send_fd;
+            // let the sender run into the full buffer before we start reading
+            std::thread::sleep(Duration::from_millis(3));
+            let (got, fd_offs, certified) = slow_read(peer.as_raw_fd(), &expect, &done, rng);
+            let res = handle.join().unwrap_or_else(|_| "<panic>".into());
+            certified_total += certified;
+            report::eval(1);
+            report::count(&format!("send.{who}"), 1);
+            report::count("send.certified_partial_or_blocked_writes", certified);
+            report::distinct_str(&format!("send:{who}:{round}:{}", report::hash_bytes(&expect)));
+            if got != expect || fd_offs != expect_fd_offs || res.contains("ERR") || res.contains('E') && who == "backend-proxy" || res.contains("<panic>") {
+                let first_diff = got.iter().zip(expect.iter()).position(|(a, b)| a != b).unwrap_or(got.len().min(expect.len()));
+                report::violation(
+                    &format!("C08:send:{who}:{}", if got != expect { "bytes-differ" } else if fd_offs != expect_fd_offs { "descriptor-placement" } else { "sender-error" }),
+                    jo! {"sender" => who, "expected_len" => expect.len(), "received_len" => got.len(), "first_difference_at" => first_diff,
+                    "expected_fd_offsets" => format!("{expect_fd_offs:?}"), "received_fd_offsets" => format!("{fd_offs:?}"), "sender_results" => res.chars().take(300).collect::<String>(), "certified_partial_writes" => certified},
+                    cfg.replay(&format!("send:{round}")),
+                );
+            }
+            report::sample(&format!("send.{who}"), jo! {"sender" => who, "stream_bytes" => expect.len(), "descriptor_offsets" => format!("{expect_fd_offs:?}"), "certified_partial_or_blocked_writes" => certified});
+        }
+    }
+    if certified_total == 0 && cfg.only.is_none() && cfg.shard == 0 {
+        report::inconclusive("send side: no partial/blocked write could be certified in this run");
+    }
+}
+
+pub fn run(cfg: &Cfg) {
+    report::assume("segments are written only after the receiver drained the previous one (SIOCINQ == 0): segmentation is deterministic");
+    report::assume("send side: kernel splits stream writes at (SO_SNDBUF/2 - 64) bytes with the minimal buffer; a partial write is certified by observing a strict prefix queued while the sender has not returned");
+    let mut rng = Rng::new(cfg.seed.wrapping_mul(0xc08).wrapping_add(cfg.shard));
+    let only = cfg.only.clone().unwrap_or_default();
+    let part = only.split(':').next().unwrap_or("").to_string();
+    let mut c = cfg.clone();
+    if let Some((_, idx)) = only.split_once(':') {
+        if let Ok(i) = idx.parse::<u64>() {
+            c.only = None;
+            c.nshards = u64::MAX;
+            c.shard = i;
+        }
+    }
+    if part.is_empty() || part == "all" || part == "recv" {
+        receive_side(&c, &mut rng);
+    }
+    if part.is_empty() || part == "all" || part == "send" {
+        send_side(&c, &mut rng);
+    }
 }
